@@ -19,7 +19,7 @@ META = {
         "xsdata.formats.dataclass.models.elements:XmlVar.match_namespace",
     ],
     "bounds": [
-        "2 threads, each one operation from a pool of 10 (cold find_type by qname, fetch with xsi:type, build of the same / different classes, find_subclass, find_type_by_fields, wildcard match_namespace) on ONE shared cold XmlContext (or one shared XmlVar)",
+        "2 threads, each one operation from a pool of 12 (cold find_type by qname, fetch with xsi:type, build of the same / different classes, find_subclass, find_type_by_fields, wildcard match_namespace) on ONE shared cold XmlContext (or one shared XmlVar)",
         "the real methods are lowered at check time from their current source into generators that yield before every statement touching cache / xsi_cache / sys_modules / namespace_matches; "
         "the schedule = starting thread + the global step indices of <= 2 (quick) / 3 (thorough) preemptions, as symbolic integers: every schedule within the bound is executed",
         "selector driven: the schedule is enumerated by the solver's forking; each path runs concretely",
@@ -29,7 +29,7 @@ META = {
     "assumptions": ["the GIL makes single bytecode-level dict/list operations atomic; a statement boundary is a possible preemption point"],
 }
 
-_POOL = [Base, Derived, Sibling, Holder, Basic, Wild]
+_POOL = [Base, Derived, Sibling, Holder, Basic, Wild, ShapeBase, CircleV1, CircleV2]
 _INFO = None
 SHARED = ["cache", "xsi_cache", "sys_modules", "namespace_matches"]
 CTX_METHODS = ["build", "fetch", "find_type", "find_types", "build_xsi_cache", "find_subclass", "find_type_by_fields", "local_names_match"]
@@ -64,14 +64,16 @@ def _ops():
         ("build Base", lambda c, v: c.build__co(Base), lambda c, v: c.build(Base), _meta_key),
         ("find_subclass Base sibling", lambda c, v: c.find_subclass__co(Base, "{urn:a}sibling"), lambda c, v: c.find_subclass(Base, "{urn:a}sibling"), ident),
         ("find_type_by_fields x,y", lambda c, v: c.find_type_by_fields__co({"x", "y"}), lambda c, v: c.find_type_by_fields({"x", "y"}), ident),
+        ("find_subclass ShapeBase circle (name shared by two classes)", lambda c, v: c.find_subclass__co(ShapeBase, "{urn:a}circle"), lambda c, v: c.find_subclass(ShapeBase, "{urn:a}circle"), ident),
+        ("find_type circle (name shared by two classes)", lambda c, v: c.find_type__co("{urn:a}circle"), lambda c, v: c.find_type("{urn:a}circle"), ident),
         ("match_namespace other", lambda c, v: v.match_namespace__co("{urn:c}foo"), lambda c, v: v.match_namespace("{urn:c}foo"), ident),
         ("match_namespace own", lambda c, v: v.match_namespace__co("{urn:a}foo"), lambda c, v: v.match_namespace("{urn:a}foo"), ident),
     ]
 
 
-NOPS = 10
+NOPS = 12
 MAXSTEP = PART.get("maxstep", 40)
-INDEX_USERS = [0, 1, 2, 3, 6, 7]
+INDEX_USERS = [0, 1, 2, 3, 6, 7, 8, 9]
 
 
 def _b_ok(b):
@@ -182,8 +184,8 @@ def plan(tier):
         if quick:
             # every pair with <= 1 preemption; pairs of operations that use the type index with <= 2 preemptions
             jobs.append(Job("interleave", {"a": a, "p2max": -1, "p3max": -1, "maxstep": 26}, 300, 60, note="selector driven, <= 1 preemption"))
-            if a in (8, 9):  # the two short memo operations: every interleaving with <= 5 preemptions
-                jobs.append(Job("interleave", {"a": a, "bs": [b for b in (8, 9) if b >= a], "p2max": 9, "p3max": 9, "p4max": 9, "maxstep": 10}, 400, 60, note="selector driven, <= 5 preemptions"))
+            if a in (10, 11):  # the two short memo operations: every interleaving with <= 5 preemptions
+                jobs.append(Job("interleave", {"a": a, "bs": [b for b in (10, 11) if b >= a], "p2max": 9, "p3max": 9, "p4max": 9, "maxstep": 10}, 400, 60, note="selector driven, <= 5 preemptions"))
             if a in INDEX_USERS:
                 jobs.append(Job("interleave", {"a": a, "bs": [b for b in INDEX_USERS if b >= a], "p2max": 25, "p3max": -1, "maxstep": 26}, 300, 60, note="selector driven, <= 2 preemptions"))
         else:
